@@ -29,15 +29,22 @@ func c11Run(rc *simrt.RunCtx) {
 	installEphemeralGen(pr)
 	rl := newRelay(rc, relayFaults{latMin: time.Millisecond, latMax: time.Duration(2+rc.Pick(20, "relay.latmax")) * time.Millisecond})
 	maxV := byte(2)
-	if rc.Pick(5, "knob.maxversion") == 4 {
-		maxV = 1
+	maxVC, maxVS := byte(2), byte(2)
+	// (the responder always answers with its own maximum version, so an
+	// older client cannot talk to a newer server at all; only the deployed
+	// order - client updated first - is exercised)
+	switch rc.Pick(8, "knob.maxversion") {
+	case 5:
+		maxVC, maxVS, maxV = 1, 1, 1
+	case 6, 7: // an updated client pairs with an older server: version 1 is negotiated
+		maxVC, maxVS, maxV = 2, 1, 1
 	}
-	st := newStack(rc, rl, pr, 40+rc.Pick(300, "knob.auth"), maxV)
+	st := newStackV(rc, rl, pr, 40+rc.Pick(300, "knob.auth"), maxVC, maxVS)
 	st.eager = true
 	st.planBytes = func(string, int) int { return 16 + rc.Pick(30000, "wl.plan") }
 	rounds := 2 + rc.Pick(4, "wl.rounds")
 	events := []string{"client-close", "server-close", "both-close", "relay-outage", "lossy-reconnect"}
-	rc.Knob("case", fmt.Sprintf("maxV=%d rounds=%d", maxV, rounds))
+	rc.Knob("case", fmt.Sprintf("maxV=%d/%d rounds=%d", maxVC, maxVS, rounds))
 	passSID, _ := st.S.data.SID() // the passphrase-derived rendezvous
 	// nobody closes on completion by itself: the history decides
 	st.afterDone = func(*instance) bool { return false }
@@ -89,6 +96,10 @@ func c11Run(rc *simrt.RunCtx) {
 			st.S.mu.Lock()
 			sk := len(st.S.gotKeys)
 			st.S.mu.Unlock()
+			if one, who := st.oneSidedPairing(); one {
+				rc.Violate("c11.one-sided-pairing", "keys-stored-on-one-side", "a handshake completed on both sides (data flowed both ways on that connection) yet %s: the two parties now look for each other at different rendezvous (history %v)", who, history)
+				break
+			}
 			if (ck > 0) != (sk > 0) {
 				// half-pairing (see DESIGN.md, C11 precondition)
 				rc.Probe("c11.half-paired")
